@@ -31,6 +31,38 @@ def _setup():
     return _worker_cache["ix"], _worker_cache["reg"]
 
 
+_NORM = None
+
+
+def norm_name(n):
+    """Obligation identity that survives harmless edits: line numbers and path ids stripped."""
+    import re
+    return re.sub(r"/p\d+$", "", re.sub(r"@L\d+", "", n))
+
+
+def baseline_set(prop):
+    p = os.path.join(VERIF, "baseline_obligations.json")
+    if not os.path.exists(p):
+        return set()
+    with open(p) as f:
+        return set(json.load(f).get(prop, []))
+
+
+def settle_unknown(obl, r, task, solve):
+    """An obligation that is recorded as discharged on the unchanged tree (baseline_obligations.json, committed, never
+    written at check time) and is now undecided is retried with four times the budget; if it still cannot be discharged
+    it is a *regressed obligation*: reported as a violation without a failing input."""
+    if r.status != "unknown" or task.get("record"):
+        return r
+    if norm_name(obl.name) not in baseline_set(task["prop"]):
+        return r
+    r2 = solve.discharge(obl, timeout_ms=4 * task["timeout_ms"])
+    if r2.status == "unknown":
+        r2.status = "regressed"
+        r2.reason = f"discharged on the unchanged tree, now undecided after a {4 * task['timeout_ms']} ms retry: {r2.reason}"
+    return r2
+
+
 def run_task(task):
     """task = dict(kind='fn'|'lemma'|'bounded', name=..., prop=..., timeout_ms=...)"""
     t0 = time.time()
@@ -54,6 +86,7 @@ def run_task(task):
                 if k % sn != si:
                     continue
                 r = solve.discharge(o, timeout_ms=task["timeout_ms"])
+                r = settle_unknown(o, r, task, solve)
                 d = r.to_dict()
                 if r.status == "failed":
                     from pyvc import replay
@@ -66,6 +99,7 @@ def run_task(task):
             for (nm, hyps, goal) in lem.fn():
                 o = Obl(name=f"lemma:{lem.name}/{nm}", hyps=list(hyps), goal=goal, props=lem.props)
                 r = solve.discharge(o, timeout_ms=task["timeout_ms"])
+                r = settle_unknown(o, r, task, solve)
                 d = r.to_dict()
                 d["inputs_model"] = None
                 out["results"].append(d)
@@ -116,6 +150,7 @@ def main(argv=None):
     ap.add_argument("--replay", default=None)
     ap.add_argument("--jobs", type=int, default=16)
     ap.add_argument("--verbose", "-v", action="store_true")
+    ap.add_argument("--record-baseline", action="store_true", help="(maintainer only, on the unchanged tree) rewrite this property's entry of baseline_obligations.json")
     args = ap.parse_args(argv)
     seed = int(os.environ.get("VERIF_SEED", "0") or 0)
     t0 = time.time()
@@ -134,10 +169,10 @@ def main(argv=None):
     for fn in P.get("functions", []):
         n = shards.get(fn, plan.SHARDS.get(fn, 1))
         for i in range(n):
-            tasks.append(dict(kind="fn", name=fn, prop=args.prop, timeout_ms=timeout_ms, shard=(i, n)))
+            tasks.append(dict(kind="fn", name=fn, prop=args.prop, timeout_ms=timeout_ms, shard=(i, n), record=args.record_baseline))
     tasks.sort(key=lambda t: -t.get("shard", (0, 1))[1])
     for lm in P.get("lemmas", []):
-        tasks.append(dict(kind="lemma", name=lm, prop=args.prop, timeout_ms=timeout_ms))
+        tasks.append(dict(kind="lemma", name=lm, prop=args.prop, timeout_ms=timeout_ms, record=args.record_baseline))
     for b in P.get("bounded", []):
         tasks.append(dict(kind="bounded", module=b["module"], name=b["fn"], prop=args.prop, tier=args.tier, seed=seed,
                           timeout_ms=timeout_ms, label=b.get("label", b["fn"])))
@@ -197,7 +232,7 @@ def main(argv=None):
                 by_backend[r["backend"]] = by_backend.get(r["backend"], 0) + 1
                 if len(samples) < 12 and (len(samples) < 4 or r["size"] > 40):
                     samples.append(dict(obligation=r["name"], smt_nodes=r["size"], backend=r["backend"], time_s=r["time_s"]))
-            elif r["status"] == "failed":
+            elif r["status"] in ("failed", "regressed"):
                 violations.append(r)
             else:
                 undecided.append(f"{r['status']}: {r['name']} ({r.get('reason', '')})")
@@ -212,6 +247,20 @@ def main(argv=None):
             row["discharged"] += k_ok
             row["wall_s"] = max(row["wall_s"], round(out["wall_s"], 2))
 
+    if args.record_baseline:
+        names = {}
+        for out in outs:
+            for r in out.get("results", []):
+                if r["kind"] == "canary" or not relevant(r, args.prop):
+                    continue
+                k = norm_name(r["name"])
+                names[k] = names.get(k, True) and r["status"] == "discharged"
+        p = os.path.join(VERIF, "baseline_obligations.json")
+        doc = json.load(open(p)) if os.path.exists(p) else {}
+        doc[args.prop] = sorted(k for k, ok in names.items() if ok)
+        with open(p, "w") as f:
+            json.dump(doc, f, indent=0, sort_keys=True)
+        print(f"recorded {len(doc[args.prop])} discharged obligation names for {args.prop}")
     # ---- violations vs known findings
     os.makedirs(os.path.join(OUT, "replays", args.prop), exist_ok=True)
     real_violations = []
